@@ -164,10 +164,27 @@ def run_scenario(sc):
         ct, _ = one_run(wc, last)
         n = len(last["rows"])
         ext = "." + last["fmt"]
+        if last.get("sqlite"):
+            # a run into a database leaves no text result file of its own prefix / levels behind (it creates and removes them): such files
+            # in the directory afterwards are part of what the user finds as "the results" -- they are compared with the clean directory
+            def text_results(d):
+                import zlib
+                pfx = (last["prefix"] + ".") if last["prefix"] else ""
+                want = [pfx + k + "." + lv for lv in (["psms"] + (["peptides"] if last.get("rollup", True) else []))
+                        for k in (["targets", "decoys"] if last.get("decoys", True) else ["targets"])]
+                out = []
+                for fn in sorted(os.listdir(d / "out")):
+                    if any(fn == w or fn.startswith(w + ".") for w in want):
+                        with open(d / "out" / fn, "rb") as fh:
+                            out.append({"name": "text:" + fn, "rows": [[0, zlib.crc32(line) & 0x3FFFFFFF, 0, 1] for line in fh]})
+                return out
+            extra_d, extra_c = text_results(wd), text_results(wc)
+        else:
+            extra_d, extra_c = [], []
         return {"kind": "assign",
                 "last": {"pfx": last["prefix"] or "", "ext": ext, "nchunks": (n + last["chunk"] - 1) // last["chunk"]},
-                "clean": {"raised": ct["raised"] + ("" if (not ct["missing"] or last.get("sqlite")) else " missing"), "files": files_of(ct, last), "input_after": []},
-                "dirty": {"raised": tr["raised"] + ("" if (not tr["missing"] or last.get("sqlite")) else " missing"), "files": files_of(tr, last),
+                "clean": {"raised": ct["raised"] + ("" if (not ct["missing"] or last.get("sqlite")) else " missing"), "files": files_of(ct, last) + extra_c, "input_after": []},
+                "dirty": {"raised": tr["raised"] + ("" if (not tr["missing"] or last.get("sqlite")) else " missing"), "files": files_of(tr, last) + extra_d,
                           "input_after": [], "listing": listing}}
     except Exception as e:
         import traceback
